@@ -289,6 +289,7 @@ class Probe:
         self.layout_dependent = {}
         self.result_owned_by_library = {}
         self.argument_type_dependent = {}
+        self.setting_dependent = {}
         self.type_calls = set()
         self.calls = {}
         self.mutated = {}        # (qual, param) -> example description
@@ -404,6 +405,7 @@ class Probe:
             self._returned_object_probe(fn, qual, args, kwargs, keep, r_same, r_fresh)
             if same(r_same, r_fresh):
                 self._argument_type_probe(fn, qual, args, kwargs, r_same)
+                self._settings_probe(fn, qual, args, kwargs, r_same)
         except Exception:
             pass
         finally:
@@ -448,6 +450,33 @@ class Probe:
                 if not close_values(r_base, snap(r_var)):
                     self.argument_type_dependent.setdefault(qual, 'the call accepts %s for argument %s but returns something else than for the original type '
                                                                   'holding the same values' % (what, key))
+
+    def _settings_probe(self, fn, qual, args, kwargs, r_base):
+        """(viii) what a call returns for explicitly typed arguments does not depend on a global setting of torch that a user may have changed
+        (default dtype float64, grad mode off, CPU autocast) - up to the precision the setting itself changes.  Calls that raise under a setting are
+        configurations the library rejects (not judged); functions that draw random numbers are skipped (the streams differ between dtypes)."""
+        if qual in ITERATIVE:
+            return
+        from . import settings as ST
+        st0 = torch.get_rng_state()
+        nst0 = np.random.get_state()[1].copy()
+        try:
+            fn(*fresh_copy(args), **fresh_copy(kwargs))
+        except Exception:
+            return
+        if not torch.equal(st0, torch.get_rng_state()) or not np.array_equal(nst0, np.random.get_state()[1]):
+            return
+        for sname in list(ST.SETTINGS)[:2]:          # CPU autocast legitimately changes every function that multiplies matrices or convolves: judged per property (C11)
+            try:
+                with ST.SETTINGS[sname]():
+                    _seed()
+                    r = snap(fn(*fresh_copy(args), **fresh_copy(kwargs)))
+            except Exception:
+                continue
+            tol = 2e-2 if 'autocast' in sname else 2e-3
+            if not close_values(r_base, r, rtol=tol):
+                self.setting_dependent.setdefault(qual, 'with %s in force the call returns other values than under the default settings for the same '
+                                                        'explicitly typed arguments' % sname)
 
     def _returned_object_probe(self, fn, qual, args, kwargs, keep, r_same, r_fresh):
         """(d) what a call returns belongs to the caller: after the caller has scaled the returned object in place, the same call returns the same
